@@ -19,7 +19,7 @@ class TransError(Exception):
     pass
 
 
-COQ_KEYWORDS = {'end', 'in', 'as', 'at', 'fun', 'match', 'with', 'return', 'then', 'else', 'if', 'let', 'Type', 'Set', 'Prop', 'forall', 'exists', 'fix', 'struct', 'where'}
+COQ_KEYWORDS = {'seq', 'end', 'in', 'as', 'at', 'fun', 'match', 'with', 'return', 'then', 'else', 'if', 'let', 'Type', 'Set', 'Prop', 'forall', 'exists', 'fix', 'struct', 'where'}
 
 
 def cname(n: str) -> str:
@@ -41,6 +41,7 @@ ATTR = {
     ('mrow', 'ref_pos'): ('mr_ref_pos', 'int'), ('mrow', 'alt_pos'): ('mr_alt_pos', 'int'), ('mrow', 'end'): ('mr_end', 'int'),
     ('mrow', 'start_exon_index'): ('mr_start_exon', 'option:int'), ('mrow', 'end_exon_index'): ('mr_end_exon', 'option:int'),
     ('mrow', 'start_ppe_start'): ('mr_start_ppe', 'option:int'), ('mrow', 'end_ppe_start'): ('mr_end_ppe', 'option:int'),
+    ('seq', 'start'): ('s_start', 'int'), ('seq', 's'): ('s_bases', 'dna'),
     ('counts', 'too_short'): ('too_short', 'int'), ('counts', 'in_range'): ('in_range_n', 'int'), ('counts', 'too_long'): ('too_long', 'int'),
     ('opt', 'oligo_min_length'): ('o_min', 'int'), ('opt', 'oligo_max_length'): ('o_max', 'int'),
     ('kgpo', 'ref_range'): ('kg_range', 'range'), ('kgpo', 'alt_length'): ('kg_alt_length', 'int'),
@@ -49,7 +50,7 @@ ATTR = {
 }
 # parameters annotated `str` that the callers fill with DNA text (an abstraction: the model's sequences are lists of nucleotides, a non-ACGT
 # character would make the DnaStr constructor raise ValueError): (function key, parameter) -> 'dna'
-DNA_PARAMS = {('dna.replace_substr', 'alt'), ('dna.insert_substr', 'alt')}
+DNA_PARAMS = {('dna.replace_substr', 'alt'), ('dna.insert_substr', 'alt'), ('seq.replace_substr', 'alt'), ('seq.insert_substr', 'alt'), ('seq.alter', 'alt')}
 # mutable records: methods that assign self.<field> return the new record (next to their value); fields re-read from the source
 MUT_RECORDS = {'OligoGenerationInfo': ('counts', 'mkCounts', [('too_short', 'too_short'), ('in_range', 'in_range_n'), ('too_long', 'too_long')])}
 # records whose field list (names, annotations, order) is re-read from the source before their attributes are translated
@@ -63,9 +64,9 @@ CTOR = {'PosOffset': ('po', ['pos', 'offset'], ['int', 'int'])}
 # python annotation -> model type tag
 ANNOT = {'int': 'int', 'bool': 'bool', 'Strand': 'strand', 'Exon': 'exon', 'UIntRange': 'range', 'IntPatternBuilder': 'pt', 'CdsSeq': 'cds',
          'TargetonConfig': 'tcfg', 'str': 'str', 'str | None': 'ostr', 'VariantType': 'vtype', 'Variant': 'variant', 'VarStats': 'vstat',
-         'SearchType': 'search', 'SearchType | None': 'option:search', 'Options': 'opt', 'OligoGenerationInfo': 'counts', 'MetaRow': 'mrow', 'int | None': 'option:int', 'DnaStr': 'dna', 'Callable[[int], bool]': 'fn:int->bool', 'list[VarStats]': 'list:vstat', 'Iterable[VarStats]': 'list:vstat', 'list[PosOffset]': 'list:po', 'array': 'list:int'}
+         'SearchType': 'search', 'SearchType | None': 'option:search', 'Options': 'opt', 'OligoGenerationInfo': 'counts', 'MetaRow': 'mrow', 'int | None': 'option:int', 'DnaStr': 'dna', 'Seq': 'seq', 'Callable[[int], bool]': 'fn:int->bool', 'list[VarStats]': 'list:vstat', 'Iterable[VarStats]': 'list:vstat', 'list[PosOffset]': 'list:po', 'array': 'list:int'}
 COQ_TYPE = {'int': 'Z', 'bool': 'bool', 'strand': 'strand', 'exon': 'exon', 'range': 'range', 'pt': 'pt', 'cds': 'cds_seq', 'tcfg': 'tcfg', 'unit': 'unit',
-            'str': 'string', 'ostr': '(option string)', 'vtype': 'vtype', 'strenum': 'string', 'variant': 'variant', 'vstat': 'vstat', 'po': '(Z * Z)', 'kgpo': 'kgpo', 'search': 'search', 'counts': 'counts', 'opt': 'opts', 'mrow': 'meta_row', 'dna': 'dna'}
+            'str': 'string', 'ostr': '(option string)', 'vtype': 'vtype', 'strenum': 'string', 'variant': 'variant', 'vstat': 'vstat', 'po': '(Z * Z)', 'kgpo': 'kgpo', 'search': 'search', 'counts': 'counts', 'opt': 'opts', 'mrow': 'meta_row', 'dna': 'dna', 'seq': 'seq'}
 
 
 def coq_type(t: str) -> str:
@@ -408,7 +409,7 @@ class Translator:
             raise TransError(f'attribute {t}.{e.attr}')
         if isinstance(e, ast.Call):
             f = e.func
-            if e.keywords and not (isinstance(f, ast.Attribute) or (isinstance(f, ast.Name) and (f.id in self.fns or f.id == 'sorted'))):
+            if e.keywords and not (isinstance(f, ast.Attribute) or (isinstance(f, ast.Name) and (f.id in self.fns or f.id in ('sorted', 'replace')))):
                 raise TransError('keyword arguments')
             if any(k.arg is None for k in e.keywords):
                 raise TransError('**kwargs')
@@ -488,6 +489,12 @@ class Translator:
                     return x, 'list:int'
                 if f.id == 'len' and len(args) == 1 and (args[0][1].startswith('list:') or args[0][1] == 'dna'):
                     return f'(zlen {args[0][0]})', 'int'
+                if f.id == 'replace' and len(e.args) == 1 and isinstance(e.args[0], ast.Name) and e.args[0].id == 'self' and self.cur_self == 'seq' \
+                        and len(e.keywords) == 1 and e.keywords[0].arg == 's':
+                    v, t = self.expr(e.keywords[0].value, env, binds)
+                    if t != 'dna':
+                        raise TransError('replace(self, s=...) with something other than DNA text')
+                    return f"(mkSeq (s_start {env['self'][0]}) {v})", 'seq'        # the copy keeps its start (prev_nt is not part of the model's seq)
                 if f.id == 'DnaStr' and len(args) == 1 and args[0][1] == 'dna' and not e.keywords:
                     return args[0][0], 'dna'       # DnaStr(<DNA text>): the validation cannot fail on a list of nucleotides
                 if f.id == 'abs' and len(args) == 1:
@@ -662,6 +669,8 @@ class Translator:
             return f'(Some {a})', tp
         if tp == 'ostr' and ta == 'none':
             return 'None', tp
+        if tp == 'dna' and ta == 'str' and (a.startswith('(v_ref_s ') or a.startswith('(v_alt_s ')) and a.endswith(')'):
+            return '(v_' + a[3:6] + a[8:], tp            # (v_alt_s v) is string_of_dna (v_alt v): the DNA text itself
         if tp.startswith('option:') and ta == tp[7:]:
             return f'(Some {a})', tp
         if tp.startswith('option:') and ta == 'none':
